@@ -5,6 +5,8 @@ import WfProofs.JournalWitness
 import WfProofs.JournalReplaying
 import WfProofs.JournalHistory
 import WfProofs.JournalCrashes
+import WfProofs.JournalCrashesSim
+import WfProofs.JournalPurgeOnce
 /-!
 # C27 — DBOS recovery replays a run to the same execution   (PARTIAL: DBOS itself is trusted)
 
@@ -502,4 +504,41 @@ theorem C27_table_source_shape :
       "if not _VALID_IDENTIFIER.match(name): msg = f'Invalid SQL identifier: {name!r}' raise ValueError(msg) ; return f'\"{name}\"'" ∧
     GenJournalTable.qualifiedTableRefBody =
       "ref = _quote_identifier(table_name) ; if schema: ref = f'{_quote_identifier(schema)}.{ref}' ; return ref" := by
+  decide
+
+/-! ## continuation after any number of stops; the orphan purge over a whole life -/
+
+/-- **C27, continuation, any number of stops** (loops that never arm a wait timeout).  At every point of a run that
+was stopped and recovered any number of times, if the orphan purge deletes no recorded receive of an in-flight pull
+task, the next recovery yields a process that simulates the stopped one: every further execution of the stopped
+process is matched action by action, ending in related worlds (same configuration, outputs — hence the same
+result); and the recovered worlds are again worlds of such a run, so the statement applies to them in turn. -/
+theorem C27_recovered_continues_any_stops {σ κ ν ο : Type} [DecidableEq κ] (L : Loop σ κ ν ο)
+    (hk : KeysDistinctCfg L) (hna : NeverArmed L) (w w2 : World σ κ ν ο) (hr : ReachC L w)
+    (hsafe : PurgeSafe L w) (hcont : Steps L (settled L w) w2) :
+    ∃ wr wr2, L.recover w.jr w.memo w.mbox = .ok wr ∧ Sim (settled L w) wr ∧ Steps L wr wr2 ∧ Sim w2 wr2 ∧
+      ReachC L wr ∧ ReachC L wr2 :=
+  recovered_continues_reachC L hk hna w w2 hr hsafe hcont
+
+/-- non-vacuity: the already once-recovered world `wpr` (non-empty journal, pull task in flight) is purge-safe -/
+example : KeysDistinctCfg Witness.Lp ∧ NeverArmed Witness.Lp ∧ ReachC Witness.Lp Witness.wpr ∧
+    PurgeSafe Witness.Lp Witness.wpr ∧ Witness.wpr.jr = [0] :=
+  ⟨Witness.Lp_keysCfg, Witness.Lp_neverArmed, Witness.wpr_reachC, Witness.wpr_purgeSafe, rfl⟩
+
+/-- **the orphan purge over a whole life**, any calls: `operation_outputs` is purged at most once per process life,
+with the function id of the one call that purged (`function_id > fid` of that call, nothing else ever changes the
+table), and never in a call that hands out a replayed completion — only once `next_expected_key()` is `None`. -/
+theorem C27_orphan_purge_once_per_life {κ : Type} [DecidableEq κ] (run : String) (db : Db κ) (calls : List (WaitIn κ)) :
+    ((runCalls run {} db calls).2.2.filter (·.purged)).length ≤ 1 ∧
+    (runCalls run {} db calls).2.1.ops =
+      (match purgeFid calls (runCalls run {} db calls).2.2 with
+       | none => db.ops
+       | some f => (db.purgeOpsFrom run f).ops) ∧
+    (∀ x, x ∈ (runCalls run {} db calls).2.2 → x.purged = true → ∀ k, x.out ≠ .replayed k) :=
+  let h := runCalls_purge_once run calls {} db
+  ⟨h.1, h.2.1, h.2.2.1⟩
+
+example : (runCalls "r" {} ({ rows := [⟨1, "r", 0, 7⟩], nextId := 2, ops := [⟨"r", 2, "x"⟩, ⟨"r", 9, "y"⟩, ⟨"q", 9, "z"⟩] } : Db Nat)
+      [{ inflight := [5, 7], done := [5, 7], fid := 3 }, { inflight := [5], done := [5], choice := some 5, fid := 4 },
+       { inflight := [6], done := [6], choice := some 6, fid := 1 }]).2.1.ops = [⟨"r", 2, "x"⟩, ⟨"q", 9, "z"⟩] := by
   decide
